@@ -60,10 +60,19 @@ func VerifC20Forward() {
 	epoch, isOpen, _ := sa.lastAnnounced()
 	rt.Assert("A was told the session is open", isOpen && epoch > 0)
 	sub, same, honestA := c20Packet(A, B, C, rt.Bytes("payload", 1, 1))
+	// optionally the relay has already verified and forwarded A's authentic message on this stream
+	// (verification keeps no state between submissions)
+	n0 := 0
+	if rt.Choose("authenticFirst", 2) == 1 {
+		sa.reqCh <- &signaling.SessionRequest{SessionSeqno: epoch, Body: &signaling.SessionRequest_SendMsg{SendMsg: &signaling.SessionMsg{SignedMsg: honestA, Seqno: 1}}}
+		rt.Quiesce()
+		n0 = len(sb.received())
+		rt.Assert("the authentic message is forwarded", n0 == 1 && !sa.done)
+	}
 	ep := rt.U64("epoch")
 	sa.reqCh <- &signaling.SessionRequest{SessionSeqno: ep, Body: &signaling.SessionRequest_SendMsg{SendMsg: sub}}
 	rt.Quiesce()
-	gotB := sb.received()
+	gotB := sb.received()[n0:]
 	rt.Assert("nothing is delivered to the submitter or to the unrelated session", len(sc.received()) == 0 && len(sa.received()) == 0)
 	if len(gotB) > 0 {
 		rt.Reach("forwarded")
